@@ -325,6 +325,20 @@ var walk = ev.Register(&ev.P[walkCase]{
 		if monOf(got) != want {
 			return fmt.Errorf("%d/%d Next(%d) = %+v, model says %+v", c.Y, c.M, c.N, monOf(got), want)
 		}
+		// the same month taken from a neighbouring year's table (the tables overlap by a few months) steps alike
+		for _, ty := range []int{c.Y + 1, c.Y - 1} {
+			if ty < 1 || ty > 9998 {
+				continue
+			}
+			for e := calendar.NewLunarYear(ty).GetMonths().Front(); e != nil; e = e.Next() {
+				if alt := e.Value.(*calendar.LunarMonth); alt.GetYear() == c.Y && alt.GetMonth() == c.M {
+					g2 := alt.Next(c.N)
+					if g2 == nil || monOf(g2) != want {
+						return fmt.Errorf("%d/%d taken from the table of year %d: Next(%d) = %v, from its own year's table it is %+v", c.Y, c.M, ty, c.N, g2, want)
+					}
+				}
+			}
+		}
 		if c.N != 0 && c.N >= -40 && c.N <= 40 {
 			step := 1
 			if c.N < 0 {
@@ -391,6 +405,31 @@ var walk = ev.Register(&ev.P[walkCase]{
 	Require: []string{"fromLeap", "adjacentToLeap", "crossesYearTable", "backward", "zero"},
 })
 
+// steps of any size: one long step equals two shorter ones (no model of 120 000 months is needed for that)
+type longCase struct{ Y, M, N, A int }
+
+var longSteps = ev.Register(&ev.P[longCase]{
+	Name: "long_steps_compose",
+	Rule: "a few month steps of the largest sizes that stay in range (backwards from the last lunar years to the first, up to 123 650 months; and 50 000..120 000 months in both directions between AD 300 and 9998); oracle: Next(n) is a month and equals Next(a).Next(n-a) (number, length, first day); non-trivial: every case",
+	Check: func(c longCase) error {
+		st := calendar.NewLunarMonthFromYm(c.Y, c.M)
+		if st == nil {
+			return nil
+		}
+		one := st.Next(c.N)
+		leg := st.Next(c.A)
+		if one == nil || leg == nil {
+			return fmt.Errorf("%d/%d: Next(%d) = %v, Next(%d) = %v (a month in range was expected)", c.Y, c.M, c.N, one, c.A, leg)
+		}
+		two := leg.Next(c.N - c.A)
+		if two == nil || monOf(one) != monOf(two) {
+			return fmt.Errorf("%d/%d: Next(%d) = %+v but Next(%d).Next(%d) = %v", c.Y, c.M, c.N, monOf(one), c.A, c.N-c.A, two)
+		}
+		return nil
+	},
+	Class: func(c longCase) ([]string, bool) { return []string{"long"}, true },
+})
+
 func genWalk(t *rapid.T) walkCase {
 	y := gen.Year(t, 2, 9990)
 	in := inYear(y)
@@ -420,6 +459,11 @@ func genWalk(t *rapid.T) walkCase {
 }
 
 func TestC06(t *testing.T) {
+	for i, c := range []longCase{{9998, 12, -123500, -60000}, {9990, 6, -123400, -100000}, {9998, 1, -100000, -1}, {300, 1, 119000, 60000}, {5000, 3, -58000, -29000}, {5000, 3, 61000, 1}} {
+		if ev.Shard == i%ev.NShards || (ev.Thorough() && ev.Mine(i)) {
+			longSteps.Eval(c)
+		}
+	}
 	ev.Assume("the flat model list concatenates each year's own months as the library reports them (their astronomical correctness is C02's subject)")
 	years := gen.HotYears()
 	for _, o := range append(append([]int{}, calendar.LEAP_11...), calendar.LEAP_12...) {
